@@ -137,6 +137,26 @@ Proof.
   split; vm_compute; reflexivity.
 Qed.
 
+(* the format-defining literals of the model are the ones in the source (gen/GenB3sum.v is regenerated from
+   b3sum/src/main.rs on every run; the anchors also pin the statement order of hash_one_input: marker, then form) *)
+From V Require gen.GenB3sum Proofs.B3sumLitP.
+Theorem C13_escape_guard_is_source : forall c, needs_escape c = existsb (N.eqb c) GenB3sum.b3_escape_guard.
+Proof. exact B3sumLitP.needs_escape_is_guard. Qed.
+Theorem C13_escape_chain_is_source : forall s,
+  escape_path s = fold_left (fun acc p => replace_char (fst p) (snd p) acc) GenB3sum.b3_escape_chain s.
+Proof. exact B3sumLitP.escape_path_is_chain. Qed.
+Theorem C13_unescape_arms_are_source : forall s, unescape s = B3sumLitP.unescape_g GenB3sum.b3_unescape_arms s.
+Proof. exact B3sumLitP.unescape_is_arms. Qed.
+Theorem C13_separators_are_source :
+  PLAIN_SEP = GenB3sum.b3_plain_sep /\ TAG_PREFIX = GenB3sum.b3_tag_prefix /\ TAG_SEP = GenB3sum.b3_tag_sep /\
+  [BSL] = GenB3sum.b3_print_marker /\ TAG_PREFIX = GenB3sum.b3_print_tag_prefix /\ TAG_SEP = GenB3sum.b3_print_tag_sep /\
+  PLAIN_SEP = GenB3sum.b3_print_plain_sep.
+Proof. exact B3sumLitP.separators_are_source. Qed.
+
+Print Assumptions C13_escape_guard_is_source.
+Print Assumptions C13_escape_chain_is_source.
+Print Assumptions C13_unescape_arms_are_source.
+Print Assumptions C13_separators_are_source.
 Print Assumptions C13_roundtrip_plain.
 Print Assumptions C13_roundtrip_tag.
 Print Assumptions C13_roundtrip_tag_refuted_on_unchanged_code.
